@@ -8,6 +8,7 @@ from hxv.lib import MOVEMENT_MAP, PATTERN_MAP, Result, Violation, build_indicato
 from hxv.runner import Shard
 
 PROP = "C16"
+FUZZ = {"shards": ["cross", "highestbar", "doji", "rising"], "procs_per_shard": 2, "runs": 150000, "seconds": 420}
 RULE = (
     "case = (function of MOVEMENT_MAP / PATTERN_MAP / above / below, candle list of 1..40 with two synthetic readings A,B on a "
     "tiny integer grid with missing entries (p in {0,0.2,0.5}), length 1..8 / lookback None or 1..6); for EVERY valid index i "
